@@ -25,8 +25,11 @@ func parseFrames(lines []string) []raceFrame {
 	return fs
 }
 
-func isLoggFile(file string) bool {
-	return strings.HasPrefix(file, "/repo/slog/") || strings.Contains(file, "/hedzr/logg") || strings.Contains(file, "hedzr/logg@")
+// isLoggFrame: the frame is a function of the module under test. The import path in the function name decides,
+// not the directory: the tree under test may be checked out anywhere (VERIF_REPO, a scratch worktree).
+func isLoggFrame(f raceFrame) bool {
+	return strings.HasPrefix(f.fn, "github.com/hedzr/logg/") || strings.HasPrefix(f.fn, "github.com/hedzr/logg.") ||
+		strings.HasPrefix(f.file, "/repo/slog/") || strings.Contains(f.file, "/hedzr/logg") || strings.Contains(f.file, "hedzr/logg@")
 }
 
 func isHarnessFile(file string) bool {
@@ -87,7 +90,7 @@ func ParseRaces(stderr []byte) []RaceReport {
 				harnessTops++
 			}
 			for _, f := range fs {
-				if isLoggFile(f.file) && !isHarnessFile(f.file) {
+				if isLoggFrame(f) && !isHarnessFile(f.file) {
 					loggSeen = true
 					s := shortFn(f.fn)
 					if !seen[s] {
